@@ -10,9 +10,12 @@ use serde_json::{json, Value};
 
 const PARSERS: [&str; 13] = ["Parse.PlainDate", "Parse.PlainDateTime", "Parse.PlainTime", "Parse.PlainYearMonth", "Parse.PlainMonthDay", "Parse.Instant", "Parse.Duration",
     "Parse.ZonedDateTime", "Parse.UtcOffset", "Parse.TimeZone", "Parse.TimeZoneId", "Parse.MonthCode", "Parse.Calendar"];
-const SEEDS: [&str; 16] = ["2020-01-01", "2020-01-01T12:30:45.123456789", "-271821-04-19T00:00Z", "+275760-09-13T23:59:59.999999999+00:00[UTC]", "12:30", "T123045", "2020-02", "--02-29", "02-29",
+const SEEDS: [&str; 27] = ["2020-01-01T00:00+00:00[UTC]", "2020-06-01T12:00[America/New_York]", "1970-01-01T00:00Z[+05:30]", "+03:00", "-05:30", "+0530", "-08", "+05:30:15.5", "Etc/GMT+5", "M12", "u-ca=gregory",
+    "2020-01-01", "2020-01-01T12:30:45.123456789", "-271821-04-19T00:00Z", "+275760-09-13T23:59:59.999999999+00:00[UTC]", "12:30", "T123045", "2020-02", "--02-29", "02-29",
     "P1Y2M3W4DT5H6M7.000000008S", "-PT9007199254740991S", "+05:30", "America/New_York", "M05L", "2020-01-01[u-ca=hebrew]", "2020-01-01T00:00+00:00[!u-ca=iso8601][foo=bar]"];
-const ALPHA: &str = "0123456789-+:.,TZtz[]=!PYMWDHSuca/ _\u{2212}\u{e9}\u{0}\u{7f}ABC";
+const ALPHA: &str = "0123456789-+:.,TZtz[]=!PYMWDHSuca/ _\u{2212}\u{e9}\u{0}\u{7f}ABC\u{660}\u{663}\u{b2}\u{ff10}\u{ff15}\u{96f}\u{bd}";
+/// characters that Unicode classifies as digits / numeric without being ASCII digits (Arabic-Indic, superscript, fullwidth, Devanagari, vulgar fraction)
+const ODD_DIGITS: [char; 8] = ['\u{660}', '\u{663}', '\u{669}', '\u{b2}', '\u{ff10}', '\u{ff15}', '\u{96f}', '\u{bd}'];
 pub const QUICK_ZONES: [&str; 14] = ["UTC", "America/New_York", "Europe/Dublin", "Europe/London", "Australia/Sydney", "Asia/Kolkata", "Asia/Kathmandu", "Pacific/Apia", "America/St_Johns", "Africa/Casablanca",
     "Asia/Tokyo", "Etc/GMT+5", "Australia/Lord_Howe", "Antarctica/Troll"];
 const CALLS: [&str; 9] = ["fields", "toString", "startOfDay", "hoursInDay", "addDay", "subMonth", "untilEpoch", "fromLocal", "withPlainTime"];
@@ -20,9 +23,30 @@ const CALLS: [&str; 9] = ["fields", "toString", "startOfDay", "hoursInDay", "add
 fn chars(s: &str) -> Value { Value::Array(s.chars().map(|c| json!(c.to_string())).collect()) }
 fn mutate(r: &mut Rng, s: &str) -> String {
     let mut v: Vec<char> = s.chars().collect(); let al: Vec<char> = ALPHA.chars().collect();
+    // a digit replaced by a non-ASCII character that is_numeric()/is_digit-like predicates accept
+    if r.chance(1, 3) {
+        let idx: Vec<usize> = v.iter().enumerate().filter(|(_, c)| c.is_ascii_digit()).map(|(i, _)| i).collect();
+        if !idx.is_empty() { let i = *r.pick(&idx[..]); v[i] = *r.pick(&ODD_DIGITS[..]); if r.chance(1, 2) { return v.into_iter().collect(); } }
+    }
     for _ in 0..r.range(1, 4) {
         let pos = if v.is_empty() { 0 } else { r.range(0, v.len() as i64 - 1) as usize };
         match r.range(0, 3) { 0 if !v.is_empty() => { v.remove(pos); } 1 => { v.insert(pos.min(v.len()), *r.pick(&al)); } 2 if !v.is_empty() => { v[pos] = *r.pick(&al); } _ => { let c = *r.pick(&al); for _ in 0..r.range(1, 40) { v.push(c); } } }
+    }
+    v.into_iter().collect()
+}
+/// exactly one edit: delete, insert, replace (ASCII or odd digit), duplicate a character, or swap two neighbours
+fn mutate1(r: &mut Rng, s: &str) -> String {
+    let mut v: Vec<char> = s.chars().collect(); let al: Vec<char> = ALPHA.chars().collect();
+    if v.is_empty() { return r.pick(&al).to_string(); }
+    let pos = r.range(0, v.len() as i64 - 1) as usize;
+    match r.range(0, 5) {
+        0 => { v.remove(pos); }
+        1 => { v.insert(pos, *r.pick(&al)); }
+        2 => { v[pos] = *r.pick(&al); }
+        3 => { let idx: Vec<usize> = v.iter().enumerate().filter(|(_, c)| c.is_ascii_digit()).map(|(i, _)| i).collect();
+               if idx.is_empty() { v[pos] = *r.pick(&ODD_DIGITS[..]); } else { let i = *r.pick(&idx[..]); v[i] = *r.pick(&ODD_DIGITS[..]); } }
+        4 => { let c = v[pos]; v.insert(pos, c); }
+        _ => { if pos + 1 < v.len() { v.swap(pos, pos + 1); } }
     }
     v.into_iter().collect()
 }
@@ -39,7 +63,14 @@ pub fn drive(t: &mut Tracer, r: &mut Rng, n: usize) {
     let mut syn = 0usize;
     while t.n < n {
         if r.chance(2, 3) {
-            let s = match r.range(0, 2) { 0 => random_string(r), 1 => { let a = *r.pick(&SEEDS[..]); mutate(r, a) } _ => { let a = *r.pick(&SEEDS[..]); let b = *r.pick(&SEEDS[..]); format!("{}{}", a, mutate(r, b)) } };
+            // valid seeds as they are, seeds with one edit, heavier damage, and arbitrary strings; every string goes to a random parser
+            let s = match r.range(0, 7) {
+                0 | 1 => r.pick(&SEEDS[..]).to_string(),
+                2 | 3 | 4 => { let a = *r.pick(&SEEDS[..]); mutate1(r, a) }
+                5 => { let a = *r.pick(&SEEDS[..]); mutate(r, a) }
+                6 => { let a = *r.pick(&SEEDS[..]); let b = *r.pick(&SEEDS[..]); format!("{}{}", a, mutate1(r, b)) }
+                _ => random_string(r),
+            };
             t.call(*r.pick(&PARSERS[..]), json!({"chars": chars(&s)}));
         } else if r.chance(1, 6) {
             // synthetic TZif data (table and footer shapes no real file has, see rec/c15.rs): written, handed to Tzif::from_bytes,
